@@ -332,8 +332,12 @@ pub fn run_srcscan(out: &mut dyn FnMut(String)) {
             if t.starts_with("//") {
                 continue;
             }
-            let global = t.starts_with("static ")
-                || t.starts_with("pub static ")
+            // a `static` is process-global MUTABLE state only if it is `static mut` or its type has interior
+            // mutability; an immutable table (`static NAMES: [&str; 3] = [..]`) is a constant
+            let is_static = t.starts_with("static ") || t.starts_with("pub static ") || t.starts_with("pub(crate) static ");
+            let interior = ["Atomic", "Mutex", "RwLock", "Cell<", "RefCell", "UnsafeCell", "OnceCell", "OnceLock", "Lazy<", "Once<", "Condvar"];
+            let typed_on_line = t.contains(':') && t.contains('=');
+            let global = (is_static && (!typed_on_line || interior.iter().any(|m| t.contains(m))))
                 || t.contains("static mut ")
                 || t.contains("thread_local!")
                 || t.contains("lazy_static")
@@ -342,6 +346,7 @@ pub fn run_srcscan(out: &mut dyn FnMut(String)) {
                 || t.contains("Lazy<")
                 || t.contains("unsafe ")
                 || t.contains("RefCell")
+                || t.contains("UnsafeCell")
                 || t.contains("Mutex")
                 || t.contains("RwLock");
             if global {
